@@ -501,6 +501,14 @@ func main() {
 		"P 4 1 0,1,2,3 p,1,0,1.8,1.10;c,1,1,1,8,0,1.8,1.8,0=0.8;cd",
 		// map-order dependent forEmpty flag
 		"P 4 1 0,1,2 p,1,0,1.8,1.10;e,0,0,1,8,0,0.8;e,0,0,1,10,1,0.10;e,2,2,1,8,0,2.8;e,2,2,1,10,1,2.10;e,3,3,1,10,1,3.10;cd",
+		// Props/C31.lean C31_forEmpty_depends_on_map_order / C31_done_depends_on_map_order_with_sentinel (same pools)
+		"P 4 1 0,1,2,3 e,0,0,1,8,0,0.8;e,0,0,1,10,1,0.10;e,1,1,1,8,0,1.8;e,1,1,1,10,1,1.10;e,2,2,1,8,0,2.8;e,3,3,1,10,1,3.10;cd",
+		"P 4 1 0,1,2,3 e,0,0,1,8,0,0.8;e,0,0,4294967295,34359738360,0,0.34359738360;e,1,1,1,8,0,1.8;e,1,1,4294967295,34359738360,0,1.34359738360;e,2,2,4294967295,34359738360,0,2.34359738360;e,2,2,1,8,0,2.8;e,3,3,4294967295,34359738360,0,3.34359738360;cd",
+		// Props/C34.lean C34_partial_does_not_cover_forEmpty: the two N = 7 pools (full block declared / empty block declared)
+		"P 7 2 0,1,2,3,4,5,6 p,1,0,1.8,1.10;e,0,0,1,8,0,0.8;e,2,2,1,8,0,2.8;e,3,3,1,8,0,3.8;e,4,4,1,8,0,4.8;cd",
+		"P 7 2 0,1,2,3,4,5,6 p,1,0,1.8,1.10;c,0,0,1,10,1,0.10,1.10,-;c,2,2,1,10,1,2.10,1.10,-;c,3,3,1,10,1,3.10,1.10,-;c,4,4,1,10,1,4.10,1.10,-;cd",
+		// Props/C34.lean C34_seal_obligation_fails_*: proposal and two endorsements, no commit message
+		"P 4 1 0,1,2,3 p,1,0,1.8,1.10;e,0,0,1,8,0,0.8;e,2,2,1,8,0,2.8;cd",
 		// sentinel proposer
 		"P 4 1 0,1,2,3 c,0,0,4294967295,34359738360,0,0.34359738360,j1,1=j1+2=j1;cd",
 		"P 4 1 - -",
